@@ -131,7 +131,12 @@ TExit == /\ Is("exit") /\ UNCHANGED aux
          /\ IF E.code = 0 THEN ExitOk
             ELSE /\ pc = "done" /\ exit = 1 /\ (Has(E, "h") => errH = E.h) /\ UNCHANGED vars
 
-TNext == \/ TBegin \/ TTmpCreate \/ TTmpSilent \/ TScan \/ TKeep \/ TDone \/ TFiles \/ TOnStart \/ TLookup
+\* events of other state machines (UTXO bookkeeping, parallel evaluation) interleave with the run's and are validated by
+\* Trace_Utxo / Trace_Par: here they are stuttering steps
+Foreign == {"spend", "create", "dump_row", "bal_row", "eval"}
+TForeign == l <= N /\ Ev[l].ev \in Foreign /\ l' = l + 1 /\ UNCHANGED <<vars, aux>>
+
+TNext == \/ TForeign \/ TBegin \/ TTmpCreate \/ TTmpSilent \/ TScan \/ TKeep \/ TDone \/ TFiles \/ TOnStart \/ TLookup
          \/ TFetched \/ TReadErr \/ TVerify \/ TDeliver \/ TLeaveLoop \/ TOnComplete \/ TRename \/ TRenamed
          \/ TCompleted \/ TExit
 
